@@ -159,7 +159,7 @@ def rand_pdu(rng, ptype=None):
         return _request.Request(header=rand_header(rng, 0, flags=0x83 if obj is not None else 3, auth_len=al), sec_trailer=tr, alloc_hint=rng.choice([len(stub), len(stub), 0, max(0, len(stub) - 1), len(stub) + 5, 2**32 - 1]), context_id=rng.choice([0, 1]), opnum=rng.choice([0, 3, 65535]), obj=obj, stub_data=stub)
     if ptype == 2:
         return _request.Response(header=rand_header(rng, 2, auth_len=al), sec_trailer=tr, alloc_hint=rng.choice([len(stub), len(stub), 0, max(0, len(stub) - 1), len(stub) + 5, 2**32 - 1]), context_id=0, cancel_count=rng.choice([0, 255]), stub_data=stub)
-    return _pdu.Fault(header=rand_header(rng, 3, auth_len=al), sec_trailer=tr, alloc_hint=rng.randrange(2**32), context_id=0, cancel_count=0, status=rng.choice([5, 0x1C010003, 2**32 - 1]),
+    return _pdu.Fault(header=rand_header(rng, 3, auth_len=al), sec_trailer=tr, alloc_hint=rng.randrange(2**32), context_id=0, cancel_count=0, status=rng.choice([5, 0x1C010003, 2**32 - 1, 0x80070005, 0xC0000022, 0x80000000, 0x7FFFFFFF]),
                       flags=_pdu.FaultFlags(rng.choice([0, 1])), stub_data=stub)
 
 
